@@ -257,3 +257,22 @@ Proof. vm_compute. reflexivity. Qed.
 Example offset_25_aliases_0 :
   match tdma_schedule (init 3) 25 (ex_item 2 1 1 1 0) with Ok (st, _) => bucket_due st 0 = [ex_item 2 1 1 1 0] | _ => False end.
 Proof. vm_compute. reflexivity. Qed.
+
+(* ---- projections used by Props/C08.v ---- *)
+Lemma executed_empty rcf st : wf st -> cbs_ok st -> (forall x, 0 <= rcf x) ->
+  exists st' lg r, tdma_sched_execute rcf st = XOk st' lg r /\
+    bucket_due st' 0 = [] /\ s_cur st' = s_cur st /\ (forall d, 0 < d < 25 -> bucket_due st' d = bucket_due st d).
+Proof.
+  intros Hwf Hcb Hr. destruct (sorted_perm rcf st Hwf Hcb Hr) as (st' & lg & E & _ & _ & H1 & H2 & H3).
+  exists st', lg, (Z.of_nat (length lg)). auto.
+Qed.
+
+Lemma slots_once b : (length b <= 8)%nat ->
+  exec_order b = map (fun k => nth k b dflt) (slot_order b) /\
+  Permutation (slot_order b) (seq 0 (length b)) /\
+  (forall k, (k < length b)%nat -> count_occ Nat.eq_dec (slot_order b) k = 1%nat) /\
+  StronglySorted (fun j k => i_prio (nth j b dflt) <= i_prio (nth k b dflt)) (slot_order b).
+Proof.
+  intros H. split; [reflexivity|]. split; [apply slot_order_perm; exact H|]. split; [intros k Hk; apply slot_once; assumption|].
+  apply slot_order_sorted. exact H.
+Qed.
